@@ -22,7 +22,7 @@ def merge(total: dict, part: dict) -> None:
         if isinstance(v, dict):
             merge(total.setdefault(k, {}), v)
         elif isinstance(v, (int, float)) and not isinstance(v, bool):
-            total[k] = total.get(k, 0) + v
+            total[k] = max(total.get(k, v), v) if k.startswith("max_") else total.get(k, 0) + v
         elif isinstance(v, list):
             total.setdefault(k, [])
             if len(total[k]) < 50:
@@ -72,12 +72,14 @@ def _worker_entry(args):
 
 
 def run_batch(run_seed, base_seed: int, n_runs: int | None, budget_s: float, workers: int, per_run_timeout: int = 300,
-              max_violations: int = 4, progress=None) -> dict:
+              max_violations: int = 4, progress=None, tasks=None) -> dict:
     """Runs seeds until n_runs or budget is exhausted, or max_violations distinct signatures were seen."""
     t0 = time.time()
     agg = {"runs": 0, "stats": {}, "hsigs": set(), "nontrivial_hsigs": set(), "samples": [], "violations": {},
            "harness_errors": [], "digests": {}, "configs": {}, "first_seeds": [], "wall_runs": 0.0}
-    gen = seeds_for(base_seed)
+    gen = seeds_for(base_seed) if tasks is None else iter(tasks)
+    if tasks is not None:
+        n_runs = len(tasks)
     ctx = mp.get_context("fork")
     submitted = 0
     sample_every = 97
@@ -128,6 +130,10 @@ def run_batch(run_seed, base_seed: int, n_runs: int | None, budget_s: float, wor
                     agg["hsigs"].add(r["hsig"])
                     if r.get("nontrivial"):
                         agg["nontrivial_hsigs"].add(r["hsig"])
+                for k, seedspec in (r.get("site_hits") or {}).items():
+                    lst = agg.setdefault("site_hits", {}).setdefault(tuple(k) if not isinstance(k, tuple) else k, [])
+                    if len(lst) < 3:
+                        lst.append(seedspec)
                 if r.get("cov_new"):
                     agg.setdefault("cov", set()).update(tuple(k) for k in r["cov_new"])
                 if r.get("sample") and len(agg["samples"]) < 6:
